@@ -17,7 +17,7 @@ import (
 // slice of pending files + list of completed names.
 
 type c10Action struct {
-	Op   string `json:"op"` // pop | push | dup | placeholder | resumed | resumedself
+	Op   string `json:"op"` // pop | push | dup | placeholder | resumed | resumedself | resumedempty
 	File string `json:"file,omitempty"`
 }
 
@@ -160,6 +160,10 @@ func c10Alphabet(thorough bool) func(hist []c10Action) []c10Action {
 		if pushed["g1.r"] == 0 {
 			out = append(out, c10Action{Op: "resumed", File: "g1.r"})
 		}
+		if pushed["g1.e"] == 0 {
+			// a file resumed (or re-sent whole) that had announced no predecessor
+			out = append(out, c10Action{Op: "resumedempty", File: "g1.e"})
+		}
 		if thorough && pushed["g1.s"] == 0 {
 			out = append(out, c10Action{Op: "resumedself", File: "g1.s"})
 		}
@@ -192,10 +196,13 @@ func c10Run(order string, hist []c10Action) vh.HistResult {
 			q.Push([]sts.Hashed{f})
 			m.completed["g1"] = append(m.completed["g1"], a.File)
 			m.strict["g1"] = false
-		case "resumed", "resumedself":
+		case "resumed", "resumedself", "resumedempty":
 			prev := "g1.p"
 			if a.Op == "resumedself" {
 				prev = a.File
+			}
+			if a.Op == "resumedempty" {
+				prev = ""
 			}
 			f := &qRecovered{qFile: &qFile{name: a.File, size: 5, time: c10T0.Add(time.Second)}, prev: prev, left: [][2]int64{{1, 2}, {3, 4}}}
 			q.Push([]sts.Hashed{f})
@@ -368,5 +375,5 @@ func TestC10(t *testing.T) {
 		}
 		h.Explore()
 	}
-	rep.Bound = fmt.Sprintf("all Push/Pop histories up to length %d over 5 files in 2 groups (equal time stamps included), one re-push of a queued name, a placeholder and a resumed file; orders fifo, lifo, alphabetical, none; chunk size 1 (files of 1-3 chunks)", depth)
+	rep.Bound = fmt.Sprintf("all Push/Pop histories up to length %d over 5 files in 2 groups (equal time stamps included), one re-push of a queued name, a placeholder, a resumed file carrying a predecessor and one carrying none; orders fifo, lifo, alphabetical, none; chunk size 1 (files of 1-3 chunks)", depth)
 }
